@@ -191,6 +191,56 @@ fn main_check(ctx: &Ctx) -> Outcome {
         out.push_part(json!({"system":"WinconBytes sequences containing a code the statement leaves out (5, 6, 22-29, 59)","sequences":cases.len()}));
     }
 
+    // (E) every chunk of <= 2 bytes over ALL 256 byte values, from the default and a styled state after every string of
+    //     <= 2 class bytes (parser in every kind of state, partial characters included): a byte the extractor singles
+    //     out meets every neighbour, without relying on the token alphabets above
+    {
+        let (alpha, _) = vchecks::common::class_alphabet();
+        let mut e_starts: Vec<(WinconBytes, RunModel, Vec<u8>)> = vec![];
+        for prefix in [&b""[..], b"\x1b[1;31;44m"] {
+            for c in strings_upto(alpha.len(), 2) {
+                let mut bytes = prefix.to_vec();
+                bytes.extend(c.iter().map(|&i| alpha[i]));
+                let mut imp = WinconBytes::new();
+                let mut model = RunModel::default();
+                if wincon_step(&mut imp, &mut model, &bytes).is_err() || model.ill_formed {
+                    continue;
+                }
+                if !e_starts.iter().any(|(i, m, _)| *i == imp && m.canon() == model.canon()) {
+                    e_starts.push((imp, model.canon(), bytes));
+                }
+            }
+        }
+        let pairs: Vec<Vec<u8>> = (0..=255u8).map(|a| vec![a]).chain((0..=255u8).flat_map(|a| (0..=255u8).map(move |b| vec![a, b]))).collect();
+        let n = AtomicU64::new(0);
+        pairs.par_iter().for_each(|p| {
+            for (imp0, model0, prefix) in &e_starts {
+                let mut imp = imp0.clone();
+                let mut model = model0.clone();
+                let mut probe = model0.clone();
+                probe.feed(p);
+                if probe.ill_formed {
+                    continue;
+                }
+                n.fetch_add(1, Ordering::Relaxed);
+                if let Err(m) = guard(|| wincon_step(&mut imp, &mut model, p)).and_then(|r| r.map(|_| ())) {
+                    let mut v = viol.lock().unwrap();
+                    if v.len() < 300 {
+                        v.push(Finding {
+                            system: "WinconBytes::extract_next/all-2-byte-chunks".into(),
+                            clause: wincon_clause_of(&m),
+                            case: vec![show(prefix), show(p)],
+                            message: m,
+                            replay: json!({"kind":"seq-from-style","prefix": hex(&[&[0xffu8][..], prefix].concat()), "chunk": hex(p), "chunk_sep": hex(p)}),
+                        });
+                    }
+                }
+            }
+        });
+        evals.fetch_add(n.load(Ordering::Relaxed), Ordering::Relaxed);
+        out.push_part(json!({"system":"WinconBytes: every chunk of <= 2 bytes over all 256 byte values","start_states":e_starts.len(),"chunks":pairs.len(),"runs":n.load(Ordering::Relaxed)}));
+    }
+
     let mut v = viol.into_inner().unwrap();
     v.sort_by_key(|f| (f.case.iter().map(|c| c.len()).sum::<usize>(), f.key()));
     // keep the shortest few per clause so that the list is stable and readable
